@@ -226,6 +226,8 @@ class C02(Prop):
     def run_case(self, case):
         if "cat" in case:
             return self.run_catalogue(case)
+        if "odd_reply" in case:
+            return self.run_odd_reply(case)
         if "reply_cuts" in case:
             return self.run_reply(case)
         data, built = self.stream_of(case)
@@ -360,11 +362,50 @@ class C02(Prop):
                 case["tail"], case["reply_cuts"], why), labels, True)
         return held(labels, True)
 
+    # replies that are not a proper upgrade: whatever the client makes of them, it must not depend on the cuts
+    ODD_REPLIES = [
+        b"ICY 200 OK\r\nicy-name: radio\r\nContent-Type: audio/mpeg\r\n\r\n",
+        b"\r\nHTTP/1.1 101 Switching Protocols\r\nUpgrade: websocket\r\nConnection: Upgrade\r\n\r\n",
+        b"HTTP/1.1 404 Not Found\r\nContent-Length: 0\r\n\r\n",
+        b"http/1.1 101 switching\r\nupgrade: websocket\r\n\r\n",
+        b"SSH-2.0-OpenSSH_9.6\r\n\r\n",
+        b"HTTP/1.1 101\r\n\r\n",
+        b"\x16\x03\x01\x02\x00\r\nxx\r\n\r\n",
+        b"HTTP/1.1 200 OK\r\n\r\n<html>\r\n\r\n</html>",
+    ]
+
+    def odd_reply_cases(self):
+        for i, raw in enumerate(self.ODD_REPLIES):
+            n = len(raw) + 4
+            for k in range(1, n + 1):
+                yield {"odd_reply": i, "reply_cuts": ["uniform", k]}
+            for a in range(1, n):
+                yield {"odd_reply": i, "reply_cuts": ["cuts", [a]]}
+
+    def run_odd_reply(self, case):
+        raw = self.ODD_REPLIES[case["odd_reply"]]
+        reply = {"raw": raw.hex()}
+        data = wire.build_frame(wire.TEXT, b"Hi")
+        key = ("odd", case["odd_reply"])
+        if key not in _REF_CACHE:
+            _REF_CACHE[key] = observe(run_stream(reply, data, "whole", 0))
+        alt = run_stream(reply, data, case["reply_cuts"], 0)
+        labels = {"odd_reply:%d" % case["odd_reply"]}
+        if alt.hang:
+            return failed("hang", alt.hang, labels, True)
+        if alt.escaped:
+            return failed("escaped_exception", alt.escaped, labels, True)
+        why = diff(_REF_CACHE[key], observe(alt))
+        if why:
+            return failed("segmentation_dependent", "reply %r under %s: %s" % (raw[:40], case["reply_cuts"], why), labels, True)
+        return held(labels, True)
+
     def enumerations(self, tier):
         max_len = 12 if tier == "quick" else 16
         return [
             Enumeration("catalogue_all_cut_sets", lambda: self.catalogue_cases(max_len), exhaustive=True),
             Enumeration("reply_cut_sets_le2_and_uniform", self.reply_cases, exhaustive=True),
+            Enumeration("replies_that_are_no_upgrade_under_every_single_cut", self.odd_reply_cases, exhaustive=True),
         ]
 
     def extra(self, tier, seed, acc):
